@@ -443,11 +443,11 @@ UNITS['U32k'] = dict(
 
 UNITS['U34n'] = dict(
     kind='native', crate='kani/U34', bin='vx_u34', timeout_s=900,
-    pool='every LIKE pattern of length <= 4 (thorough: 5) over {a, b, ., %, _} without adjacent %, against every subject string of length <= 4 (thorough: 5) over the same alphabet',
+    pool='every LIKE pattern of length <= 4 (thorough: 5) over {a, b, ., %, _} without adjacent %, against every subject string of length <= 4 (thorough: 5) over the same alphabet; plus every printable ASCII character (and two non-ASCII ones) c as a literal in the shapes c, ac, ca, acb, cc, %c, c%, _c against every subject of length <= 3 over {a, b, c}',
     title='BOUNDED exhaustive enumeration (native, not a proof): compile_expr LIKE -> regex translation (statement slice, compiled against the real regex crate) agrees with the SQL meaning of LIKE',
     assumptions=['the regex crate is outside both verifiers; the slice is compiled natively and enumerated over a stated pool, so this unit is a bounded stand-in and is reported under coverage.bounded',
                  'reference semantics like_matches(): % any sequence, _ one character, other characters themselves (patterns with adjacent % or backslashes are LocustDB-specific escapes and are left out)'],
-    not_covered=['patterns longer than the bound, other characters', 'the escape conventions (\\_ and %%)', 'the RegexMatch operator itself'])
+    not_covered=['patterns longer than the bound', 'the escape conventions (\\_ and %%)', 'the RegexMatch operator itself'])
 
 UNITS['U35k'] = dict(
     kind='kani', crate='kani/U35', timeout_s=900, mem_gb=10, jobs=6,
